@@ -216,6 +216,18 @@ func Positions(level int) []Position {
 			return obj(J{"c": J{"anyOf": A{obj(J{"p": l}, req(r, "p")), obj(J{"q": J{"type": "integer"}}, A{"q"})}}}, A{"c"})
 		}},
 	}
+	// a *typed* definition that carries the composite, referenced twice (one declaration, one set of methods)
+	ps = append(ps,
+		Position{"allof-def", func(l J, r bool) J {
+			o := obj(J{"c": J{"$ref": "#/$defs/D"}, "c2": J{"$ref": "#/$defs/D"}}, A{"c"})
+			o["$defs"] = J{"D": J{"type": "object", "allOf": A{obj(J{"p": l}, req(r, "p")), obj(J{"q": J{"type": "integer"}}, nil)}}}
+			return o
+		}},
+		Position{"anyof-def", func(l J, r bool) J {
+			o := obj(J{"c": J{"$ref": "#/$defs/D"}, "c2": J{"$ref": "#/$defs/D"}}, A{"c"})
+			o["$defs"] = J{"D": J{"type": "object", "anyOf": A{obj(J{"p": l}, req(r, "p")), obj(J{"q": J{"type": "integer"}}, A{"q"})}}}
+			return o
+		}})
 	if level >= 1 {
 		ps = append(ps,
 			Position{"item2", func(l J, r bool) J {
